@@ -1,6 +1,6 @@
 \* design level, quick: every interleaving of the chunk processes, n <= 20, threads 1..16, MinBatch
 \* scaled to 4 and 1; fft::concurrent::permute and the clone_and_shift / shift-by-series batches (C12)
 SPECIFICATION Spec
-CONSTANTS MaxN = 20  MinBatches = {1, 4}  Ops = {"perm", "pow"}  GuardEmpty = TRUE  MaxStates = 5000
+CONSTANTS MaxN = 20  MinBatches = {1, 4}  Ops = {"perm", "pow"}  GuardEmpty = TRUE  MaxStates = 3000
 INVARIANT Partition NoRace InBounds Final
 CHECK_DEADLOCK FALSE
